@@ -13,6 +13,7 @@ import (
 var c17Groups = [][]string{
 	{"MOV AX,1"}, {"MOV EAX,1"}, {"ADD CX,0x100", "SUB ECX,2"}, {"PUSH AX", "PUSH EAX"}, {"MOV AX,[BX+2]"}, {"MOV EAX,[EBX+4]"},
 	{"PUSH 0x100"}, {"IN EAX,DX", "OUT DX,AX"}, {"MOV WORD [0x0ff4],320"}, {"XOR EBX,EBX", "DB 0x90", "CMP AL,1"},
+	{"MOV DS,AX", "MOV AX,1", "MOV EBX,2"}, {"MOV ES,CX", "MOV AX,DS", "ADD ECX,0x100", "PUSH EAX"}, {"SHL EAX,2", "NOT CX", "OR EAX,1", "SUB ECX,4", "AND AX,0x00ff"},
 }
 
 var c17Neutral = []string{"", "; comment", `[INSTRSET "i486p"]`, "X EQU 5", "EXTERN ext1", "lbl:", "DB 0x11"}
